@@ -324,6 +324,30 @@ pub fn run(ctx: &mut Ctx, _name: &str) {
         run_sase(ctx, &sc);
         if sc.pa.is_none() && sc.mk == DEFAULT_MAX_KLEENE && sc.mr == DEFAULT_MAX_RESULTS { run_vpl(ctx, &sc, &rt); }
     }
+    // the documented default caps, through VPL and through the plain constructor: 23 B events against
+    // MAX_KLEENE_EVENTS = 20 (consistent filter), 14 equal B events against MAX_ENUMERATION_RESULTS = 10 000
+    {
+        let nn = |v: i64| Some(Num { e: 8 * v, as_float: false });
+        let mut evs = vec![Ev { ty: 0, x: nn(0), y: nn(0), key: None }];
+        for i in 0..23 { evs.push(Ev { ty: 1, x: nn(i % 4), y: nn(0), key: None }); }
+        evs.push(Ev { ty: 2, x: nn(0), y: nn(0), key: None });
+        let sc = Scenario { trail: false, mk: DEFAULT_MAX_KLEENE, mr: DEFAULT_MAX_RESULTS, pa: None, pb: None, pc: None, evs };
+        run_vpl(ctx, &sc, &rt);
+        let mut evs = vec![Ev { ty: 0, x: nn(0), y: nn(0), key: None }];
+        for _ in 0..14 { evs.push(Ev { ty: 1, x: nn(1), y: nn(0), key: None }); }
+        evs.push(Ev { ty: 2, x: nn(0), y: nn(0), key: None });
+        let sc = Scenario { trail: false, mk: DEFAULT_MAX_KLEENE, mr: DEFAULT_MAX_RESULTS, pa: None, pb: Some(P::Ref(0, Op::Ge, 1, 0)), pc: None, evs };
+        run_vpl(ctx, &sc, &rt);
+        ctx.directive(&sc.header("sase"));
+        let mut eng = SaseEngine::new(sc.pattern());
+        let _ = verif_kleene::take();
+        for (i, ev) in sc.evs.iter().enumerate() {
+            let ms = eng.process(&ev.event(i));
+            let rec = verif_kleene::take();
+            let m = if ms.is_empty() { "-".to_string() } else { ms.iter().map(fmt_match).collect::<Vec<_>>().join(";") };
+            ctx.case(&ev.text(), &format!("m={} z={}", m, fmt_sets(&rec)));
+        }
+    }
     exhaustive(ctx, if ctx.thorough { 4 } else { 2 });
     let nsc = if ctx.thorough { 6000 } else { 700 };
     for _ in 0..nsc {
